@@ -1,6 +1,7 @@
 import ModVerif.Drv.Util
 import ModVerif.Basic.FoldTable
 import ModVerif.Generated.FnZip
+import ModVerif.Model.Zip
 /-! Handlers that run the code REGENERATED from zip/zip.go (Generated/FnZip.lean: isVendoredPackage, strToFold,
     collisionChecker.check) on the ops of the hand model. -/
 namespace ModVerif.Drv.GenZip
@@ -33,6 +34,51 @@ def handle : Handler
         | .ok (some e, cc') => go cc' rest ((e.takeWhile (· != ' ')).toString :: acc)
         | .error e => go cc rest (e.toString :: acc)
     pure (",".intercalate (go [] items []))
+  | _, _ => none
+
+end ModVerif.Drv.GenZip
+
+/-! checkFiles regenerated whole (closures addError / inSubmodule hoisted) -/
+namespace ModVerif.Drv.GenZip
+open ModVerif ModVerif.Drv ModVerif.GoRt
+open ModVerif.Generated.Zip
+
+def modeBits : ModVerif.Zip.Mode → Int
+  | .regular => 0 | .dir => 2147483648 | .symlink => 134217728 | .irregular => 33554432 | .lstatErr => 0
+
+def toGFile (f : ModVerif.Zip.FileInfo) : File :=
+  { Path := f.path,
+    Lstat := if f.mode == .lstatErr then (default, some "lstat") else ({ Mode := modeBits f.mode, IsDir := f.mode == .dir, Size := f.size }, none),
+    Open := (f.content, none) }
+
+def reasonOf (e : String) : String :=
+  match e with
+  | "errPathNotClean" => "notclean" | "errPathNotRelative" => "notrelative" | "errVendored" => "vendored"
+  | "errSubmoduleFile" => "submodulefile" | "errHgArchivalTxt" => "hgarchival" | "filepath" => "filepath"
+  | "errGoModCase" => "gomodcase" | "lstat" => "lstat"
+  | "case-insensitive file name collision: %q and %q" => "casecollision"
+  | "entry %q is both a file and a directory" => "fileanddir"
+  | "multiple entries for file %q" => "multiple"
+  | "errSymlink" => "symlink" | "errNotRegular" => "notregular" | "errGoModSize" => "gomodsize" | "errLICENSESize" => "licensesize"
+  | _ => "unknown:" ++ e
+
+def showErrsG (l : List FileError) : String :=
+  if l.isEmpty then "_" else ",".intercalate (l.map fun e => xh e.Path ++ ":" ++ reasonOf (e.Err.getD ""))
+
+def showCfG (cf : CheckedFiles) : String :=
+  let e := if cf.SizeError.isSome then "size" else if !cf.Invalid.isEmpty then "invalid" else "none"
+  s!"valid={xhList cf.Valid} omitted={showErrsG cf.Omitted} invalid={showErrsG cf.Invalid} sizeerr={showBool cf.SizeError.isSome} err={e}"
+
+def handleCf (parseFiles : String → Option (List ModVerif.Zip.FileInfo)) (cfp : Bytes → Bool) (equalFold : Bytes → Bytes → Bool) : Handler
+  | "checkfiles", [fs] => do
+    let fs ← parseFiles fs
+    let total := (fs.map fun f => f.path.length).sum
+    let fuel := 8 * total + 4 * fs.length + 64
+    let pgv : Bytes → Bytes → Bytes := fun _ data => if fs.any (fun f => f.content == data && f.goGe124) then B "go1.24" else B "go1.0"
+    pure (match checkFiles (fun p => if cfp p then none else some "filepath") equalFold pgv simpleFoldI (fun s => s.map ModVerif.Zip.asciiLower)
+                 versionCompareI id fuel (fs.map toGFile) with
+      | .ok (cf, _, _) => showCfG cf
+      | .error e => e.toString)
   | _, _ => none
 
 end ModVerif.Drv.GenZip
